@@ -37,9 +37,11 @@ let two_levels pol a =
 let () =
   reg "plain_aggregates" (fun t -> let a = t_crs t in let _ = t_q t in let eps2 = t_q t in
     show_aggr (Aggregates.plain_aggregates sc eps2 a (junk0 a)));
+  (* optional trailing token fx1 = the tree under test has the repaired remove_small_aggregates
+     (`if (!m) throw error::empty_level();`), see TentativeQrPolicies.pointwise_aggregates_fx *)
   reg "pointwise_aggregates" (fun t -> let a = t_crs t in let _ = t_q t in let eps2 = t_q t in
-    let bs = t_i t in let mina = t_i t in
-    show_aggr (Aggregates.pointwise_aggregates sc eps2 bs mina a (junk0 a)));
+    let bs = t_i t in let mina = t_i t in let fx = t.p < Array.length t.t && next t = "fx1" in
+    show_aggr (TentativeQrPolicies.pointwise_aggregates_fx sc fx eps2 bs mina a (junk0 a)));
   reg "tentative" (fun t -> let _n = t_i t in let naggr = t_i t in let id = t_zvec t in
     show_crs (Tentative.tentative_prolongation sc naggr id));
   reg "aggregation" (fun t -> let a = t_crs t in let _ = t_q t in let eps2 = t_q t in let bs = t_i t in
@@ -185,3 +187,17 @@ let () =
     else if not (TentativeQr.ns_orthonormal_ok sc p) then "FAIL orthonormal"
     else if not upper then "FAIL upper"
     else "OK")
+
+(* ---- transfer_operators() with a near-null space (TentativeQrPolicies.v); trailing token = repaired-tree flag ---- *)
+let show_tr_ns (tr, rs) = show_tr tr ^ " " ^ show_vec (List.concat (List.concat rs))
+let fx_flag t = t.p < Array.length t.t && next t = "fx1"
+let () =
+  reg "ns_aggregation" (fun t -> let a = t_crs t in let _ = t_q t in let eps2 = t_q t in let bs = t_i t in let cols = t_i t in
+    let b = chunks cols (t_vec t) in let fx = fx_flag t in
+    show_tr_ns (TentativeQrPolicies.aggregation_transfer_ns sc fx eps2 bs cols a (junk0 a) b []));
+  reg "ns_sa" (fun t -> let a = t_crs t in let _ = t_q t in let eps2 = t_q t in let bs = t_i t in let cols = t_i t in
+    let relax = t_q t in let c23 = t_q t in let b = chunks cols (t_vec t) in let fx = fx_flag t in
+    show_tr_ns (TentativeQrPolicies.sa_transfer_ns sc fx eps2 (Coarsen.sa_omega sc relax c23) bs cols a (junk0 a) b []));
+  reg "ns_emin" (fun t -> let a = t_crs t in let _ = t_q t in let eps2 = t_q t in let bs = t_i t in let cols = t_i t in
+    let b = chunks cols (t_vec t) in let fx = fx_flag t in
+    show_tr_ns (TentativeQrPolicies.emin_transfer_ns sc fx 1 eps2 bs cols a (junk0 a) b []))
